@@ -3,6 +3,7 @@ package world
 import (
 	"bytes"
 	"encoding/json"
+	"errors"
 	"fmt"
 	"io"
 	"net/http"
@@ -356,7 +357,10 @@ func (r *Root) Run(hist []Step) (*Exec, error) {
 	}
 	for _, st := range hist[1:] {
 		if x.Err != nil {
-			break
+			var ee *engine.Error
+			if !errors.As(x.Err, &ee) {
+				break
+			}
 		}
 		if err := x.Apply(st); err != nil {
 			return x, err
